@@ -3,7 +3,7 @@ import os
 import vcheck as V
 from props import common
 
-THEOREMS = ["C16_admission", "C16_native_cost", "C16_fee_sum", "C16_evm_cost", "C16_block_fee_sum", "C16_proposer_credit"]
+THEOREMS = ["C16_evm_cost_checked", "C16_admission", "C16_native_cost", "C16_fee_sum", "C16_evm_cost", "C16_block_fee_sum", "C16_proposer_credit"]
 PROPS_V = "theories/Props/C16.v"
 
 
